@@ -562,6 +562,53 @@ def r12_links_and_flags(idx, r):
         raise AnalysisError(f"only {n} sites clearing assignment bits found")
 
 
+def r13_refusal_point_first_and_fresh_cache(idx, r):
+    """(a) `_changeOtherDensParamsByFactor` scales detailedNDens / pinNDens IN PLACE (`*=` on the stored arrays, which a read-only parameter
+    collection cannot refuse).  Every caller therefore makes a plain assignment into `self.p` first - that is where a read-only collection
+    raises - so that a refused change has changed nothing.  (b) Composite.backUp sets the live cache aside and continues with a NEW dict on
+    every path: if the old dict stays in place when it happens to be empty, the saved reference and the live cache are one object and
+    everything cached inside the scope survives restoreBackup."""
+    n = 0
+    for f in idx.all_funcs():
+        if ".tests" in f.module.name or f.name == "_changeOtherDensParamsByFactor":
+            continue
+        calls = [c for c in iter_calls(f.node) if call_attr(c) == "_changeOtherDensParamsByFactor"]
+        if not calls:
+            continue
+
+        def ev(nd):
+            if isinstance(nd, ast.Assign) and any(isinstance(t, ast.Attribute) and norm(t.value) == "self.p" for t in nd.targets):
+                return ["refusal-point"]
+            return []
+        fl = Flow(f.node, ev).run()
+        for c in calls:
+            n += 1
+            st = fl.state_before(c) or {}
+            r.require(st.get("refusal-point", (0, 0))[0] >= 1, f"{f.qualname}:in-place-scaling-after-the-guarded-assignment", f, node=c,
+                      msg=f"`{norm(c)}` scales detailedNDens/pinNDens in place before any assignment a read-only collection could refuse: the call is refused (the assignment raises) but the vectors are already multiplied")
+    if n < 1:
+        raise AnchorMissing("callers of _changeOtherDensParamsByFactor")
+    b = idx.method("armi.reactor.composites.Composite", "backUp")
+
+    def ev2(nd):
+        if isinstance(nd, ast.Assign) and any(norm(t) == "self._backupCache" for t in nd.targets) and "self.cached" in norm(nd.value):
+            return ["saved"]
+        if isinstance(nd, ast.Assign) and any(norm(t) == "self.cached" for t in nd.targets) and norm(nd.value) in ("{}", "dict()"):
+            return ["fresh"]
+        return []
+    fl = Flow(b.node, ev2).run()
+    miss = fl.must_at_normal_exits("fresh") + fl.must_at_normal_exits("saved")
+    r.require(not miss, "Composite.backUp:live-cache-replaced-by-a-new-dict-on-every-path", b, node=miss[0].node if miss and miss[0].node is not None else b.node,
+              msg="a path leaves backUp with the saved dict still installed as the live cache: what is cached inside the scope is written into the saved object and survives the roll-back")
+    fresh = [x for x in walk_local(b.node) if isinstance(x, ast.Assign) and any(norm(t) == "self.cached" for t in x.targets)]
+    r.require(all((fl.state_before(x) or {}).get("saved", (0, 0))[0] >= 1 for x in fresh), "Composite.backUp:saved-before-replaced", b, msg="the live cache is set aside before it is replaced")
+
+
+def r14_pairing(idx, r):
+    from ..pairing import pairing_rule
+    pairing_rule(idx, r, ["armi.reactor.parameters", "armi.reactor.composites", "armi.reactor.components.component", "armi.reactor.grids.structuredGrid"], 80)
+
+
 def run(idx, chk):
     chk.explanation = (
         "C16: StateRetainer's enter/exit symmetry and traversal; every backUp/restoreBackup pair in the tree pushing and popping a stack with "
@@ -590,3 +637,7 @@ def run(idx, chk):
                  necessary="the roll-back completes for every object of the scope, whatever the kept values are")
     chk.run_rule("R16.12", "links are lifted out of every dimension before pickling; only the backup machinery clears the SINCE_BACKUP bit", lambda r: r12_links_and_flags(idx, r), floor=4,
                  necessary="after the scope every object is as before except the kept parameters, which keep their new values")
+    chk.run_rule("R16.13", "in-place scaling of density vectors comes after the guarded assignment; backUp installs a new cache dict on every path", lambda r: r13_refusal_point_first_and_fresh_cache(idx, r), floor=3,
+                 necessary="a refused mutation changes nothing; after a retain-state scope no value computed inside it is served")
+    chk.run_rule("R16.14", "arguments stand at the parameter they are named after; sibling calls forward the same pass-through parameters", lambda r: r14_pairing(idx, r), floor=1,
+                 necessary="the keep-set reaches restoreBackup")
